@@ -175,7 +175,7 @@ package asm
 //@ # findBlock returns a block of f that carries exactly the identifier asked for (the first such block),
 //@ # and fails only if no block of f carries it.
 //@ func findBlock
-//@   props C04
+//@   props C04 C05
 //@   requires f != nil && f.GlobalID >= 0 && blockIdent.LocalID >= 0 && forall(k, 0, len(f.Blocks), f.Blocks[k] != nil)
 //@   assigns nothing
 //@   ensures result1 == nil ==> exists(k, 0, len(f.Blocks), result0 == f.Blocks[k] && f.Blocks[k].LocalIdent == blockIdent && forall(j, 0, k, f.Blocks[j].LocalIdent != blockIdent))
